@@ -12,6 +12,7 @@ func TestReplay_Front(t *testing.T) {
 	frontReplay("TestProp_C11_Authz", runC11)
 	frontReplay("TestProp_C07_Fidelity", runC07)
 	frontReplay("TestProp_C12_Ingress", runC12)
+	frontReplay("TestProp_C15_Publish", runC15)
 	frontReplay("TestProp_C12_RateLimit", runC12RL)
 	frontReplay("TestProp_C17_Inbound", runC17In)
 }
